@@ -17,6 +17,11 @@ sys.path.insert(0, ROOT)
 from pyvc import contracts as C  # noqa  (pure stdlib)
 
 
+class _Ones:
+    def __getitem__(self, k):
+        return 1
+
+
 class _Sub:
     def __getitem__(self, k):
         return self
@@ -68,6 +73,7 @@ BASE_NS = {
     "exp": lambda x: math.exp(x),
     "lgamma": lambda x: math.lgamma(x),
     "decreases": lambda *a: None,
+    "ones_if_none": lambda x: _Ones() if x is None else x,
     "A": _Sub(),
     "Opt": _Sub(),
     "Tup": _Sub(),
@@ -91,7 +97,7 @@ class RT:
             # keep only @spec functions (executable); contracts/lemmas are evaluated clause-wise
             keep = []
             for node in tree.body:
-                if isinstance(node, ast.FunctionDef) and node.decorator_list and isinstance(node.decorator_list[0], ast.Name) and node.decorator_list[0].id == "spec":
+                if isinstance(node, ast.FunctionDef) and node.decorator_list and isinstance(node.decorator_list[0], ast.Name) and node.decorator_list[0].id in ("spec", "spec_inline"):
                     node.returns = None
                     for a in node.args.args:
                         a.annotation = None
